@@ -77,7 +77,7 @@ contract(f"{LC}::EZPackOverlay._verify_signature", "_verify_signature",
          vars={"self": OVERLAY, "pk": BYTES, "auth": OBJ("ipv8/messaging/payload_headers.py::BinMemberAuthenticationPayload",
                                                         public_key_bin=EXPR("pk")), "data": BYTES},
          requires=["uf_bool('valid_public_key', pk)", "len(pk) > 0"],
-         call="self._verify_signature(auth, data)", raises=[],
+         call="self._verify_signature(auth, data)", raises=[], all_params=True,
          ensures=["implies(result[0], Sig(pk, signed_part(data, siglen(pk)), sig_part(data, siglen(pk))))",
                   "result[1] == signed_part(data, siglen(pk))[2 + len(pk):]"],
          covers=["result[0] == True"],
@@ -117,7 +117,7 @@ for _wname in ("lazy_wrapper", "lazy_wrapper_wd"):
 
 contract(f"{LC}::EZPackOverlay._ez_unpack_auth", "_ez_unpack_auth",
          vars={"self": OVERLAY, "data": BYTES, "CLS": EXPR("GlobalTimeDistributionPayload")},
-         call="self._ez_unpack_auth(CLS, data)", raises=None,
+         call="self._ez_unpack_auth(CLS, data)", raises=None, all_params=True,
          ensures=["authentic(data)", "result[0].public_key_bin == pk_at(data)",
                   "25 + len(pk_at(data)) + 16 + siglen(pk_at(data)) == len(data)"],
          covers=["raised is None"],
@@ -217,3 +217,32 @@ def registration_audit(ctx):
 
 audit("registration", registration_audit,
       note="every handler that receives a Peer is behind lazy_wrapper/lazy_wrapper_wd; the protocol's authenticated handlers are pinned")
+
+
+# ---------------------------------------------------------------------------------------------------------------------
+# the one hand-rolled authenticated handler (not behind a decorator): DiscoveryCommunity.on_old_introduction_request
+# It is verified modularly: _ez_unpack_auth is replaced by its contract (proved above for ALL values of all of its
+# parameters, see all_params), and the handler must build the Peer from the key that contract authenticated.
+DC = "ipv8/peerdiscovery/community.py"
+AUTHP = OBJ("ipv8/messaging/payload_headers.py::BinMemberAuthenticationPayload", public_key_bin=BYTES)
+contract(f"{DC}::DiscoveryCommunity.on_old_introduction_request", "on_old_introduction_request.authenticates",
+         vars={"AUTH": AUTHP, "PAYLOAD": OBJ("ipv8/messaging/payload.py::IntroductionRequestPayload", destination_address=ADDRESS, identifier=INT),
+               "self": OBJ(f"{DC}::DiscoveryCommunity", max_peers=EXPR("-1"),
+                           network=EFFECT("network", add_verified_peer={}, discover_services={}),
+                           endpoint=EFFECT("endpoint", send={}), logger=LOGGER(), community_id=BYTES_N(20)),
+               "source": ADDRESS, "data": BYTES},
+         requires=["uf_bool('valid_public_key', AUTH.public_key_bin)", "len(AUTH.public_key_bin) > 0"],
+         call="self.on_old_introduction_request(source, data)", raises=None,
+         stubs={f"{COM}::Community.create_introduction_response": {"event": "create_introduction_response", "returns": BYTES,
+                                                                  "note": "response construction (C13)"},
+                f"{LC}::EZPackOverlay._ez_unpack_auth": {
+                    "event": "unpack_auth", "returns": "(AUTH, None, PAYLOAD)", "raises": ["PacketDecodingError", "PackError"],
+                    "ensures": ["authentic(data) and AUTH.public_key_bin == pk_at(data)"],
+                    "note": "modular use of the contract '_ez_unpack_auth' (returns only for an authentic datagram, for every value of its optional parameters)"},
+                **PEER_STUBS},
+         on_effect={"add_verified_peer": ["authentic(data)", "args[0].public_key.key_to_bin() == pk_at(data)", "args[0]._address == source"],
+                    "endpoint.send": ["authentic(data)", "args[0] == source"],
+                    # the decoder is only called in the form its contract covers: (payload class, data)
+                    "unpack_auth": ["len(args) == 3 and args[2] is data"]},
+         covers=["len(calls('add_verified_peer')) == 1"],
+         note="a key becomes a verified peer (and gets an answer) through this handler only for an authentic datagram signed by it")
